@@ -512,6 +512,20 @@ def _cancel(n, d):
 _SUB_MEMO = {}
 
 
+def _leading_coefficient(n):
+    """rational coefficient of the first monomial of a sum-of-monomials term (None if not recognisable)"""
+    t = n
+    if z3.is_app(t) and t.decl().kind() == z3.Z3_OP_ADD:
+        t = t.children()[0]
+    if z3.is_rational_value(t):
+        return Fraction(t.numerator_as_long(), t.denominator_as_long())
+    if z3.is_app(t) and t.decl().kind() == z3.Z3_OP_MUL:
+        c0 = t.children()[0]
+        if z3.is_rational_value(c0):
+            return Fraction(c0.numerator_as_long(), c0.denominator_as_long())
+    return Fraction(1)
+
+
 def _som(n):
     return z3.simplify(n, som=True)
 
@@ -720,10 +734,34 @@ class SV:
             raise Concretised("symbolic sqrt outside an exploration")
         if ctx.decide(self.e < 0):
             raise ValueError("sqrt of negative symbolic value")
-        ctx.nsqrt += 1
-        r = z3.Real(f"_sqrt{ctx.nsqrt}")
-        ctx.assume(z3.And(r >= 0, SV(r * r).eq_expr(self)))
-        return SV(r, (), None, self.t)
+        # sqrt(c^2 * Y) = c * sqrt(Y): split a rational square off the polynomial's leading coefficient, so that
+        # radicands that differ by such a factor share one square-root variable
+        rad, factor = self, Fraction(1)
+        if not self.d:
+            c = _leading_coefficient(self.n)
+            if c is not None and c != 0:
+                c = abs(c)
+                rn, rd = math.isqrt(c.numerator), math.isqrt(c.denominator)
+                if rn * rn == c.numerator and rd * rd == c.denominator and c != 1:
+                    factor = Fraction(rn, rd)
+                    rad = SV.norm(self.n * _rv(1 / c), (), self.t)
+        if not hasattr(ctx, "sqrts"):
+            ctx.sqrts = {}
+        key = (rad.n.get_id(), tuple((a.get_id(), k) for a, k in rad.d))
+        hit = ctx.sqrts.get(key)
+        if hit is None:
+            for other, orad in ctx.sqrts.values():  # the same polynomial written in another monomial order
+                if orad.d == rad.d:
+                    diff = _som(rad.n - orad.n)
+                    if z3.is_rational_value(diff) and diff.numerator_as_long() == 0:
+                        hit = ctx.sqrts[key] = (other, orad)
+                        break
+        if hit is None:
+            ctx.nsqrt += 1
+            r = z3.Real(f"_sqrt{ctx.nsqrt}")
+            ctx.assume(z3.And(r >= 0, SV(r * r).eq_expr(rad)))
+            hit = ctx.sqrts[key] = (SV(r, (), None, self.t), rad)
+        return hit[0] * factor if factor != 1 else hit[0]
 
     def __pow__(self, n):
         if isinstance(n, (int, np.integer)) and n >= 0:
@@ -898,8 +936,9 @@ def prove_eq(ctx: Ctx, a, b, timeout_ms=20000, extra=()):
     return "unknown", None
 
 
-def prove(ctx: Ctx, cond, timeout_ms=20000, extra=()):
-    """Does cond hold for every value of the symbolic inputs on this path?"""
+def prove(ctx: Ctx, cond, timeout_ms=20000, extra=(), premises=None):
+    """Does cond hold for every value of the symbolic inputs on this path?
+    premises: use only these facts (each established as an obligation of its own) instead of the path condition"""
     if isinstance(cond, (bool, np.bool_)):
         if cond:
             return "valid", None
@@ -911,7 +950,8 @@ def prove(ctx: Ctx, cond, timeout_ms=20000, extra=()):
         return "valid", None
     STATS["obl_solver"] += 1
     neg = z3.Not(e)
-    forms = list(ctx.path) + list(extra) + [neg]
+    base = list(ctx.path) if premises is None else [zbool(p) for p in premises]
+    forms = base + list(extra) + [neg]
     nl = any(_nonlinear(f) for f in forms)
     r, m = _fresh_check(forms, timeout_ms, logic="QF_NRA" if nl else None)
     if r == "unknown":
